@@ -1,1 +1,64 @@
-From Verif Require Import Base Tie.
+(* C06 -- evaluating new data reproduces the training encoding.
+   Model: Model/Design.v new_comp / new_term / new_common (Variable/Call/Term.eval_new_data,
+   CommonEffectsMatrix.evaluate_new_data) and Model/Eval.v eval_lazy (prediction pass e_fit = false
+   replays the parameters recorded by the training pass: nothing is re-estimated).
+   Fragment ([model_ok], [safe_gen]): variables (numeric, string, ordered within their declared
+   categories), literals, arithmetic, I, center, scale, standardize, offset, C/S/T without levels=,
+   and (the _gen versions) poly and bs.  Excluded = listed findings: binary/B (KF-C06-2),
+   C(x, levels=...) and C(<ordered>) (KF-C06-1); refuted examples in Proofs/PredictionExamples.v.
+   Not proved: the group matrix on rows of D (correspondence + oracle only). *)
+From Verif Require Import Base Tokens Lazy Algebra Frame Eval Design History FrameStructure Prediction.
+From Verif Require Tie.
+Local Close Scope Qc_scope.
+Local Close Scope Q_scope.
+
+(* any row multiset of the training frame: any order, any repetition, single rows, subsets lacking
+   levels -- the new common matrix is exactly those rows of the training matrix, in every mode *)
+Theorem C06_new_rows_are_training_rows :
+  forall cx e D na m ds idx mode,
+    describe e = Ok m -> frame_wf D -> frame_rows D <> 0%nat -> used_cols D m <> [] ->
+    na = NaPass \/ anyb (incomplete_mask D m) = false ->
+    scalar_extras cx -> model_ok [] cx D m ->
+    design_matrices cx e D na = Ok ds ->
+    new_common cx mode ds (frame_pick idx D) = Ok (NewRes (pick idx (common_matrix ds)) false).
+Proof. exact design_new_common_pick. Qed.
+
+(* the same with poly and bs among the transforms (bs refuses an empty selection) *)
+Theorem C06_new_rows_are_training_rows_splines :
+  forall extra cx e D na m ds idx mode,
+    extra_allowed extra ->
+    (In "bs"%string extra -> seln (sel_pick idx) (frame_rows D) <> 0%nat) ->
+    describe e = Ok m -> frame_wf D -> frame_rows D <> 0%nat -> used_cols D m <> [] ->
+    na = NaPass \/ anyb (incomplete_mask D m) = false ->
+    scalar_extras cx -> model_ok extra cx D m ->
+    design_matrices cx e D na = Ok ds ->
+    new_common cx mode ds (frame_pick idx D) = Ok (NewRes (pick idx (common_matrix ds)) false).
+Proof. exact design_new_common_pick_gen. Qed.
+
+(* frozen parameters: the prediction pass consumes exactly the state the training pass recorded,
+   in recording order, and computes the selected rows of the training value *)
+Theorem C06_frozen_parameters :
+  forall extra idx D ex sq l v st1 rec,
+    extra_allowed extra ->
+    (In "bs"%string extra -> seln (sel_pick idx) (frame_rows D) <> 0%nat) ->
+    frame_wf D -> frame_unordered D ->
+    (forall k w, assoc k ex = Some w -> is_scalar w = true) ->
+    safe_gen extra l = true ->
+    eval_lazy (ECtx D ex sq true) [] l = Ok (v, st1, rec) ->
+    st1 = [] /\
+    eval_lazy (ECtx (frame_pick idx D) ex sq false) rec l = Ok (val_sel (sel_pick idx) v, [], []).
+Proof. exact eval_lazy_pick_gen. Qed.
+
+(* the prediction pass never records parameters, whatever the call tree *)
+Theorem C06_prediction_records_nothing :
+  forall d ex sq l, predict_pure (eval_lazy (ECtx d ex sq false)) l.
+Proof. exact eval_lazy_predict_pure. Qed.
+
+(* evaluating new data leaves the design (an immutable value in the model) and the history state alone *)
+Theorem C06_state_unchanged :
+  forall p s i fr, fst (step p s (OEvalCommon i fr)) = s /\ fst (step p s (OEvalGroup i fr)) = s.
+Proof. exact eval_new_state_unchanged. Qed.
+
+Print Assumptions C06_new_rows_are_training_rows.
+Print Assumptions C06_new_rows_are_training_rows_splines.
+Print Assumptions C06_frozen_parameters.
